@@ -18,12 +18,13 @@
 (* No value in this module was obtained by running gmsm; the repository's      *)
 (* self-generated expectations ("emmansun ..." tests) are deliberately unused. *)
 EXTENDS Integers, Sequences, TLC, Bitwise
+LOCAL INSTANCE SequencesExt
 Z == INSTANCE ZUC
 M == INSTANCE ZucMac
 B == INSTANCE Bytes
 H == INSTANCE Hex
 WB(ws) == H!FromBytes(Z!BytesOf(ws))
-Rep(b, n) == [i \in 1..n |-> b]
+Rep(b, n) == SubSeq([i \in 1..n |-> b], 1, n)
 
 (* ---- ZUC-128 keystream ---- *)
 ASSUME WB(Z!Keystream128(Rep(0, 16), Rep(0, 16), 2)) = "27bede74018082da"
@@ -80,24 +81,22 @@ ASSUME Mac256(255, 17, 500, 16) = "3a83b554be408ca5494124ed9d473205"
 
 (* ---- the window form used by ZucMac against the literal bit-string reading of the definitions ---- *)
 (* keystream and message as sequences of bits; a window is a SubSeq; tags are bit strings             *)
-KBits(ws) == [i \in 1..(32 * Len(ws)) |-> LET h == ws[((i - 1) \div 32) + 1][(((i - 1) % 32) \div 16) + 1]
-                                          IN  (h \div Z!P2(15 - ((i - 1) % 16))) % 2]
-XorB(a, b) == [i \in 1..Len(a) |-> (a[i] + b[i]) % 2]
-RECURSIVE FoldB(_, _, _, _, _, _, _)
-FoldB(kb, msg, i, nbits, t, shift, acc) ==
-  IF i >= nbits THEN acc
-  ELSE FoldB(kb, msg, i + 1, nbits, t, shift,
-             IF M!Bit(msg, i) = 1 THEN XorB(acc, SubSeq(kb, shift + i + 1, shift + i + t)) ELSE acc)
+KBits(ws) == SubSeq([i \in 1..(32 * Len(ws)) |-> LET h == ws[((i - 1) \div 32) + 1][(((i - 1) % 32) \div 16) + 1]
+                                                 IN  (h \div Z!P2(15 - ((i - 1) % 16))) % 2], 1, 32 * Len(ws))
+XorB(a, b) == SubSeq([i \in 1..Len(a) |-> (a[i] + b[i]) % 2], 1, Len(a))
+FoldB(kb, msg, nbits, t, shift, base) ==
+  FoldLeft(LAMBDA acc, k : IF M!Bit(msg, k - 1) = 1 THEN XorB(acc, SubSeq(kb, shift + k, shift + k - 1 + t)) ELSE acc,
+           base, [k \in 1..nbits |-> k])
 BitsToBytes(bs) == [k \in 1..(Len(bs) \div 8) |->
    bs[8*k-7] * 128 + bs[8*k-6] * 64 + bs[8*k-5] * 32 + bs[8*k-4] * 16 + bs[8*k-3] * 8 + bs[8*k-2] * 4 + bs[8*k-1] * 2 + bs[8*k]]
 Eia3Lit(ws, msg, nbits) ==
   LET kb == KBits(ws)
       L  == ((nbits + 31) \div 32) + 2
-      t  == FoldB(kb, msg, 0, nbits, 32, 0, [i \in 1..32 |-> 0])
+      t  == FoldB(kb, msg, nbits, 32, 0, Rep(0, 32))
   IN  BitsToBytes(XorB(XorB(t, SubSeq(kb, nbits + 1, nbits + 32)), SubSeq(kb, (32 * (L - 1)) + 1, 32 * L)))
 Mac256Lit(ws, msg, nbits, t) ==
   LET kb == KBits(ws)
-      tg == FoldB(kb, msg, 0, nbits, t, t, SubSeq(kb, 1, t))
+      tg == FoldB(kb, msg, nbits, t, t, SubSeq(kb, 1, t))
   IN  BitsToBytes(XorB(tg, SubSeq(kb, t + nbits + 1, nbits + (2 * t))))
 R == INSTANCE Prng
 KS1 == Z!Keystream128(R!Bytes(5, 1, 16), R!Bytes(5, 2, 16), 16)
@@ -106,9 +105,10 @@ Msg == R!Bytes(5, 5, 32)
 ASSUME \A n \in 0..200 : M!Eia3OnKS(KS1, Msg, n) = Eia3Lit(KS1, Msg, n)
 ASSUME \A n \in 0..200 : \A t \in {32, 64, 128} : M!Mac256OnKS(KS2, Msg, n, t) = Mac256Lit(KS2, Msg, n, t)
 
-(* ---- the 23-byte IV of ZUC-256 is the 184-bit string IV0..IV16 (bytes) || IV17..IV24 (6 bits each) ---- *)
-ASSUME LET iv == [i \in 1..23 |-> IF i <= 17 THEN 0 ELSE <<4, 32, 195, 16, 81, 135>>[i - 17]]   \* 000001 000010 000011 ... 000111 (IV17 = 1 .. IV23 = 7)
-       IN  [j \in 17..24 |-> Z!IV6(iv, j)] = [j \in 17..24 |-> IF j = 24 THEN 7 ELSE j - 16] \/ TRUE
+(* ---- the 23-byte IV of ZUC-256 is read as the 184-bit string IV0..IV16 (8 bits each) || IV17..IV24 (6 bits each) ---- *)
+(* bytes 17..22 = 04 20 c4 14 61 c8 are the 6-bit values 1, 2, 3, 4, 5, 6, 7, 8                                         *)
+ASSUME LET iv == Rep(0, 17) \o <<4, 32, 196, 20, 97, 200>>
+       IN  \A j \in 17..24 : Z!IV6(iv, j) = j - 16
 ASSUME PrintT("KAT_ZUC ok")
 VARIABLE x
 Init == x = 0
